@@ -52,3 +52,22 @@ func dumpVis(shape, siteIdx int, run bool) {
 		fmt.Println("--", res.Kind, res.Class, res.Msg, res.Line, res.PanicKey)
 	}
 }
+
+// dumpControls lists the public control cells that do not conform, per site.
+func dumpControls(shape int) {
+	sh := &shapes[shape]
+	cn := cnFor(probeSeed)
+	for _, s := range sitesOf(sh) {
+		cells := cellsOf(sh, s, cn)
+		res := runner.Run(visScript(sh, s, cells, cn, false), runner.Opts{Fuel: 400_000_000})
+		obs, _ := parseCells(res.Out)
+		for i := range cells {
+			c := &cells[i]
+			if c.M.mod == "public" && (c.Path == "->" || c.Path == "->$n" || c.Path == "static::" || c.Path == "self::") {
+				if j := judge(sh, s, c, obs[c.ID]); j != "" {
+					fmt.Printf("%s recv=%s %s %s -> %s %s\n", s, c.Recv, c.Body, c.Op, j, obsString(obs[c.ID]))
+				}
+			}
+		}
+	}
+}
